@@ -257,7 +257,7 @@ def _param_strategy(draw, integral):
 
 
 @st.composite
-def law_case(draw, p_max):
+def law_case(draw, p_max, huge=True):
     src = draw(st.sampled_from(["weighted"] * 5 + ["faithless"]))
     if src == "faithless":
         W = draw(S.faithless_dag(3, min(7, max(3, p_max))))
@@ -272,6 +272,13 @@ def law_case(draw, p_max):
     else:
         means = [fstr(draw(_dy(6, 8))) for _ in range(p)]
         variances = [fstr(draw(_dy(5, 8, lo=0))) for _ in range(p)]
+    if huge and draw(st.integers(0, 7)) == 0:
+        # model parameters many orders of magnitude above the intervention parameters; with every variable intervened the
+        # intervened law has ordinary magnitudes again (and a tight tolerance)
+        big = draw(st.sampled_from([2 ** 57, 2 ** 40, 10 ** 17]))
+        means = [fstr(fr(m) * big) for m in means]
+        variances = [fstr(fr(v) * big) for v in variances]
+        integral_model = integral_model and big != 10 ** 17 or integral_model
     dtypes = {}
     Wint = all(fr(x).denominator == 1 for r in W for x in r)
     Wsmall = Wint and all(0 <= fr(x) <= 255 for r in W for x in r)
@@ -279,7 +286,7 @@ def law_case(draw, p_max):
     dtypes["means"] = draw(st.sampled_from(["int", "float"])) if integral_model else "float"
     dtypes["variances"] = draw(st.sampled_from(["int", "float"])) if integral_model else "float"
     # intervention assignment: one of the 8 overlap classes per variable
-    n_int = draw(st.sampled_from([0, 1, 1, 2, 2, 3, p]))
+    n_int = draw(st.sampled_from([0, 1, 1, 2, 2, 3, p, p]))
     tg = draw(st.lists(st.integers(0, p - 1), min_size=min(n_int, p), max_size=min(n_int, p), unique=True))
     do, noise, shift = {}, {}, {}
     for t in tg:
@@ -297,7 +304,19 @@ def law_case(draw, p_max):
         which = draw(st.sampled_from(["do", "noise"]))
         (do if which == "do" else noise)[str(t)] = [means[t], variances[t]]
     followups = [{}]
-    if tg and draw(st.booleans()):
+    if tg and draw(st.integers(0, 4)) == 0:
+        # the same call again with one mean moved from -1 to -2 (or 0 to a huge multiple of 2^61-1 ...): parameter values
+        # that differ but share Python's hash
+        t = str(tg[0])
+        nm = "do" if t in do else "noise" if t in noise else "shift"
+        d0 = {"do": do, "noise": noise, "shift": shift}[nm]
+        pair = draw(st.sampled_from([(-1, -2), (-2, -1), (0, 2 ** 61 - 1), (1, 2 ** 61)] if huge else [(-1, -2), (-2, -1)]))
+        var = d0[t][1] if isinstance(d0[t], list) else None
+        d0[t] = [pair[0], var] if var is not None else pair[0]
+        twin = {k: dict(v) for k, v in (("do", do), ("noise", noise), ("shift", shift))}
+        twin[nm][t] = [pair[1], var] if var is not None else pair[1]
+        followups = [twin, {}]
+    elif tg and draw(st.booleans()):
         # the same parameters under another intervention type, then observational again
         t = str(tg[0])
         src = do[t] if t in do else noise[t] if t in noise else shift[t]
